@@ -26,14 +26,17 @@ NOT_APPLICABLE = {}
 
 def main():
     props = [json.loads(l) for l in open(os.path.join(ROOT, "properties.jsonl"))]
-    extra = os.path.join(ROOT, "kit", "manifest_extra.json")
+    import glob
     claimed = dict(CLAIMED)
     na = dict(NOT_APPLICABLE)
-    if os.path.exists(extra):
-        x = json.load(open(extra))
-        for k, v in x.get("claimed", {}).items():
-            claimed[k] = tuple(v)
-        na.update(x.get("not_applicable", {}))
+    # fragments: kit/manifest.d/<ID>.json = {"engine","category","text","note","technique","design_ref"} or {"not_applicable": reason}
+    for f in sorted(glob.glob(os.path.join(ROOT, "kit", "manifest.d", "*.json"))):
+        pid = os.path.basename(f)[:-5]
+        x = json.load(open(f))
+        if "not_applicable" in x:
+            na[pid] = x["not_applicable"]; claimed.pop(pid, None)
+        else:
+            claimed[pid] = (x["engine"], x["category"], x["text"], x["note"], x["technique"], x.get("design_ref", "6/" + pid))
     checks = []
     for p in props:
         pid = p["id"]
